@@ -12,7 +12,8 @@
    responders of every length, every snapshot and every mirror — `_partial`; the refutation of the unguarded statement
    by a witness on the responder level and on the full world model (the history replayed on the server; known finding). *)
 From Coq Require Import List NArith Bool.
-From Gluon Require Import Model.Responders Model.Session Proofs.MirrorProofs Proofs.MergeProofs Proofs.PopProofs Proofs.SessionWitness.
+From Gluon Require Import Model.Responders Model.Session Proofs.MirrorProofs Proofs.MergeProofs Proofs.PopProofs Proofs.MembershipProofs Proofs.CommuteProofs Proofs.InterleaveProofs Proofs.MirrorOrderProofs
+  Proofs.SessionWitness.
 Import ListNotations.
 Open Scope N_scope.
 
@@ -68,6 +69,20 @@ Theorem C01_exists_announced_in_queue_order : forall rs skip readd p q,
   filter is_rexists p ++ filter is_rexists q = filter is_rexists rs.
 Proof. exact pop_exists_in_order. Qed.
 Print Assumptions C01_exists_announced_in_queue_order.
+
+(* The observing session, any flush placement: foreign responders arrive in rounds, each followed by a flush that holds
+   removals back (FETCH/STORE/SEARCH) or a permitting one; the EXISTS responders of the whole stream carry ascending
+   UIDs above those of the snapshot (UIDs are handed out in increasing order). After the flushes the mailbox the client
+   reconstructs from the untagged responses agrees with the snapshot the server answers from (count, seq -> UID, learnt
+   flags) and the snapshot is UID-sorted. Since every prefix of a script is a script, this holds after EVERY flush.
+   (Not covered: the session's own state-changing commands, refuted in general: C01_refuted.) *)
+Theorem C01_observer_mirror_agrees_any_flush_placement : forall sc s res m lo,
+  srt s -> agree m s = true -> all_le lo s ->
+  ascending lo (ex_uids (res ++ script_queue sc)) ->
+  Forall rwf (res ++ script_queue sc) -> Forall foreign_resp (res ++ script_queue sc) ->
+  exists s' res' m', mirror_script sc s res m = Some (s', res', m') /\ agree m' s' = true /\ srt s'.
+Proof. exact script_keeps_mirror. Qed.
+Print Assumptions C01_observer_mirror_agrees_any_flush_placement.
 
 Theorem C01_old_policy_shifts_sequence_numbers :
   client_agrees_after (pop_go_old [] below_queue) = Some false /\
